@@ -27,10 +27,14 @@ MetaVerdict(m, e) ==
   ELSE IF m.images # e.images THEN "images"
   ELSE "ok"
 
-Spec_(o, r) == o.readers[r]
 Ids(o) == {TabId(r, o.readers[r]) : r \in 1..Len(o.readers)}
+\* settled[id]: what the PROPERTIES say the table pair holds - known after a parse on that pair that nothing sharing it
+\* disturbed (the file's tables), and before any parse (empty); unknown while / after listings on the pair were interleaved
+\* (the intermediate contents then depend on when the code writes, which no property pins)
+Known(t) == [known |-> TRUE, t |-> t]
+Unknown == [known |-> FALSE, t |-> NoTables]
 W0(o) == [readers |-> [r \in 1..Len(o.readers) |-> NewReader(o.readers[r])],
-          tables |-> [id \in Ids(o) |-> NoTables], gens |-> <<>>]
+          tables |-> [id \in Ids(o) |-> NoTables], settled |-> [id \in Ids(o) |-> Known(NoTables)], gens |-> <<>>]
 
 ActStep(o, W, a) ==
   IF "err" \in DOMAIN a THEN [v |-> "raised", W |-> W]
@@ -39,8 +43,10 @@ ActStep(o, W, a) ==
            id == TabId(g.r, o.readers[g.r])
            x  == Adv(W.readers[g.r], W.tables[id], g)
            whole == Whole(g.f)
+           endsClean == ~x.found /\ x.g.clean
            W1 == [readers |-> [W.readers EXCEPT ![g.r] = x.reader],
                   tables |-> [W.tables EXCEPT ![id] = x.tab],
+                  settled |-> [W.settled EXCEPT ![id] = IF endsClean THEN Known([tpid |-> whole.st.tpid, pname |-> whole.st.pname]) ELSE Unknown],
                   gens |-> [j \in 1..Len(W.gens) |->
                              IF j = a.g THEN x.g
                              ELSE [W.gens[j] EXCEPT !.clean = @ /\ ~Legit(g.r, o.readers[g.r], W.gens[j].r, o.readers[W.gens[j].r]),
@@ -51,10 +57,10 @@ ActStep(o, W, a) ==
                 ELSE IF x.found THEN (IF ItemOK(a.item, x.item) THEN "ok" ELSE "yield-content-or-order")
                 \* the listing is complete
                 ELSE IF x.g.out # whole.yields THEN "yields-are-not-the-file"
-                \* the table pair of EVERY reader object is what the mechanism says (own pairs stay apart)
+                \* the table pair of EVERY reader object whose contents the properties pin (own pairs stay apart)
                 ELSE IF \E r \in 1..Len(o.readers) :
-                          LET t == W1.tables[TabId(r, o.readers[r])] IN
-                          ~SameTable(a.tabs[r][1], t.tpid) \/ ~SameTable(a.tabs[r][2], t.pname)
+                          LET st == W1.settled[TabId(r, o.readers[r])] IN
+                          st.known /\ (~SameTable(a.tabs[r][1], st.t.tpid) \/ ~SameTable(a.tabs[r][2], st.t.pname))
                      THEN "tables-of-some-reader-object"
                 ELSE IF x.g.clean /\ ~SameTable(a.tpid, whole.st.tpid) THEN "threads_pids"
                 ELSE IF x.g.clean /\ ~SameTable(a.pname, whole.st.pname) THEN "pids_names"
@@ -64,7 +70,7 @@ ActStep(o, W, a) ==
 
 VARIABLES oi, ai, W
 vars == <<oi, ai, W>>
-Init == oi = 1 /\ ai = 1 /\ W = (IF Len(Obs) > 0 THEN W0(Obs[1]) ELSE [readers |-> <<>>, tables |-> <<>>, gens |-> <<>>])
+Init == oi = 1 /\ ai = 1 /\ W = (IF Len(Obs) > 0 THEN W0(Obs[1]) ELSE [readers |-> <<>>, tables |-> <<>>, settled |-> <<>>, gens |-> <<>>])
 NextObs == /\ oi' = oi + 1 /\ ai' = 1
            /\ W' = IF oi + 1 <= Len(Obs) THEN W0(Obs[oi + 1]) ELSE W
 Next ==
